@@ -72,14 +72,15 @@ def check_case(rec, case):
     t = case['tree']
     n = case['n']
     D = rx.denot(t, n)
-    words = list(fa.words_upto('ab', n))
+    alpha = ''.join(sorted(rx.symbols(t))) if case.get('own_alphabet') else 'ab'
+    words = list(fa.words_upto(alpha or 'a', n))
     special = any(x in repr(t) for x in ("'*'", "'0'", "'1'"))
     rec.note_case(case, case['cls'], special and 0 < len(D) < len(words))
     # oracle self-check: denotation (A) vs derivatives (B) on all words
     selfcheck(rec, all((w in D) == rx.matches_deriv(t, w) for w in words), t)
     r = adapt.build_rx(t)
     extra = ['c', 'ac', 'ca'] if n >= 2 else ['c']
-    for w in words + extra:
+    for w in ([] if case.get('simplify_only') else words + extra):
         o = call(ra.regexp_accepts_word, r, w, _cpu=case.get('cpu', 20))
         if o.kind == 'timeout':
             rec.inconc('matcher exceeded the CPU guard (exponential on nested stars)')
@@ -96,6 +97,25 @@ def gen_cases(rec, rng, tier):
     thorough = tier == 'thorough'
     for t in common.shard_slice(rxg.enum_trees(7 if thorough else 6), rec):
         yield {'cls': 'enum_tree', 'tree': t, 'n': 5 if thorough else 4}
+    # the simplifier alone is cheap: one more level of the enumeration, and operands that are near duplicates
+    # of each other (rules of the kind r + r -> r must compare the operands exactly)
+    for t in common.shard_slice(rxg.trees_with_nodes(8 if thorough else 7), rec):
+        yield {'cls': 'enum_tree_simplify_only', 'tree': t, 'n': 2, 'simplify_only': True}
+    from vt.gen import mut
+    for _ in range(400 if thorough else 120):
+        t = rxg.random_tree(rng, rng.randint(1, 5), 'ab', bias=rng.choice([None, 'star', 'unit']))
+        if rx.size_iter(t) > 30:
+            continue
+        variants = [t] + [m for (_, m) in mut.rx_mutants(t, rng, limit=3)]
+        t2 = rng.choice(variants)
+        for op in '+.':
+            yield {'cls': 'near_duplicate_operands', 'tree': (op, t, t2), 'n': 3, 'cpu': 2, 'simplify_only': rx.size_iter(t) > 8}
+    for t in common.shard_slice(rxg.enum_trees(6 if thorough else 5, rxg.LEAVES01), rec):
+        yield {'cls': 'enum_tree_digit_symbols', 'tree': t, 'n': 4, 'own_alphabet': True}
+    for _ in range(60 if thorough else 20):
+        t = rxg.random_tree(rng, rng.randint(3, 8), '01', bias=rng.choice([None, 'star', 'unit']))
+        if rx.size_iter(t) <= 60:
+            yield {'cls': 'random_digit_symbols', 'tree': t, 'n': 4, 'cpu': 2, 'own_alphabet': True}
     for bias in (None, 'star', 'unit'):
         for _ in range(120 if thorough else 40):
             d = rng.randint(3, 12)
